@@ -398,6 +398,70 @@ pub fn cond_sequences(rng: &mut Rng, exhaustive: usize, random: usize) -> Vec<St
         }
         out.push(s);
     }
+    // since fix batch 2: a block remembers its #else (03ca601), the blocks of a file start and end inside it (115a619),
+    // a directive line that does not start with a name is ignored in a skipped block (ed75afa)
+    for s in [
+        "iee", "Iee", "iel", "IeL", "Ieten", "Ieln", "iIeenn", "iIenen", "ietIetenen", "x", "ix", "Ixn", "Ixexn", "iIxnxn",
+        "()", "(t)", "i(e)n", "i(l)n", "i(n)", "I(n)n", "I(e)tn", "(i)n", "(I)en", "(it)tn", "i(itn)n", "i(iten)etn",
+        "I(iten)etn", "ie(e)n", "ie(ie)n", "ie(ien)n", "i((e))n", "i((n))", "((i))n", "((in))", "(i(n))", "(i(e)n)", "(ie(e)n)",
+        "i(I(i(t)n)et)n", "(x)", "I(x)n", "i(Ix)n", "i(Ixn)n", "i(t)(t)n",
+    ] {
+        out.push(s.to_string());
+    }
+    for _ in 0..random {
+        // random trees of files: lines as above, `(` opens an included file (nesting <= 3), `)` ends it
+        let len = 3 + rng.below(24) as usize;
+        let mut s = String::new();
+        // per open file: the block depth inside that file
+        let mut depth = vec![0usize];
+        for _ in 0..len {
+            let d = *depth.last().unwrap();
+            if depth.len() < 4 && rng.chance(1, 7) {
+                s.push('(');
+                depth.push(0);
+                continue;
+            }
+            if depth.len() > 1 && rng.chance(1, 5) {
+                // mostly close the file's own blocks first
+                if rng.chance(3, 4) {
+                    for _ in 0..d {
+                        s.push('n');
+                    }
+                }
+                s.push(')');
+                depth.pop();
+                continue;
+            }
+            let c = if rng.chance(1, 6) {
+                *rng.pick(&['i', 'I', 'd', 'D', 'l', 'L', 'e', 'n', 't', 'x'])
+            } else if d == 0 || rng.chance(1, 3) {
+                *rng.pick(&['i', 'I', 'd', 'D', 't'])
+            } else {
+                *rng.pick(&['l', 'L', 'e', 'e', 'n', 'n', 't', 't', 'x'])
+            };
+            match c {
+                'i' | 'I' | 'd' | 'D' => *depth.last_mut().unwrap() += 1,
+                'n' if d > 0 => *depth.last_mut().unwrap() -= 1,
+                _ => {}
+            }
+            s.push(c);
+        }
+        while depth.len() > 1 {
+            if rng.chance(3, 4) {
+                for _ in 0..*depth.last().unwrap() {
+                    s.push('n');
+                }
+            }
+            s.push(')');
+            depth.pop();
+        }
+        if rng.chance(2, 3) {
+            for _ in 0..depth[0] {
+                s.push('n');
+            }
+        }
+        out.push(s);
+    }
     out
 }
 
@@ -545,7 +609,35 @@ pub fn gen_defscan(rng: &mut Rng) -> String {
             _ => cond.extend(["(".to_string(), "defined".to_string(), p, ")".to_string()]),
         }
     }
-    parts.push(join(rng, &cond));
+    let mut cond_text = join(rng, &cond);
+    // one scenario in five is *text*: the same definitions, the "condition" as ordinary source lines, broken at random
+    // places — before and after the `(` of an invocation, after commas, between operands (fix f08088c: the invocation
+    // of a function-like macro may continue on the next line; `Z(<line end>)` is an empty argument list)
+    if placement != "a" && rng.chance(1, 4) {
+        parts[0] = "t".to_string();
+        let mut s = String::new();
+        for c in cond_text.chars() {
+            match c {
+                ' ' if rng.chance(1, 3) => s.push('\n'),
+                '(' => {
+                    if rng.chance(1, 3) {
+                        s.push_str(*rng.pick(&["\n", " \n", "\n\n", "\n  "]));
+                    }
+                    s.push('(');
+                    if rng.chance(1, 4) {
+                        s.push('\n');
+                    }
+                }
+                ',' | ')' if rng.chance(1, 5) => {
+                    s.push('\n');
+                    s.push(c);
+                }
+                _ => s.push(c),
+            }
+        }
+        cond_text = s;
+    }
+    parts.push(cond_text);
     parts.join(";")
 }
 
